@@ -8,7 +8,8 @@ Local Open Scope N_scope.
 
 Definition frame_row := (N * uri * N * N * N * option N * option N * option N * bool)%type.
 Definition row_of (f : frame) : frame_row :=
-  (f_id f, f_uri f, f_tag f, f_role f, f_status f, f_supersedes f, f_superseded_by f, f_parent f, f_manifest f).
+  (* content is compared for active frames only: vacuum drops the payload of inactive ones *)
+  (f_id f, f_uri f, (if f_status f =? 0 then f_tag f else 0), f_role f, f_status f, f_supersedes f, f_superseded_by f, f_parent f, f_manifest f).
 
 Definition C01_in := list sop.
 Definition C01_out := (list sout * list frame_row)%type.
